@@ -318,9 +318,31 @@ pub fn eval_subprocess(r: &Replay, tag: &str) -> Option<EvalOut> {
     if r.engine == "R" {
         exe = std::path::PathBuf::from(std::env::var("VERIF_BIN_REAL").ok()?);
     }
-    let out = Command::new(exe).arg("eval").arg(&path).stderr(Stdio::null()).output().ok()?;
+    // the evaluation runs in its own process and gets two minutes: a replay that hangs (a real
+    // block the monitor cannot resolve) must not hang the check
+    let outp = format!("{}.out", path);
+    let outf = std::fs::File::create(&outp).ok()?;
+    let mut child = Command::new(exe).arg("eval").arg(&path).stderr(Stdio::null()).stdout(Stdio::from(outf)).spawn().ok()?;
+    let t0 = Instant::now();
+    let finished = loop {
+        match child.try_wait() {
+            Ok(Some(_)) => break true,
+            Ok(None) if t0.elapsed().as_secs() >= 120 => {
+                let _ = child.kill();
+                let _ = child.wait();
+                break false;
+            }
+            Ok(None) => std::thread::sleep(std::time::Duration::from_millis(5)),
+            Err(_) => break false,
+        }
+    };
+    let text = std::fs::read_to_string(&outp).unwrap_or_default();
     let _ = std::fs::remove_file(&path);
-    let s = String::from_utf8_lossy(&out.stdout);
+    let _ = std::fs::remove_file(&outp);
+    if !finished {
+        return None;
+    }
+    let s = text;
     for l in s.lines() {
         if let Some(j) = l.strip_prefix("EVAL ") {
             return serde_json::from_str(j).ok();
